@@ -164,5 +164,8 @@ META = {
     "assumptions": [
         "round trip: versions free of '-' and '@' (the property's own quantifier)",
         "strings range over all Unicode code points except surrogates, up to the lengths in evidence.bounds",
+        "predicates: every string up to 10 (thorough 16) characters against an independent statement of the documented rule; create_release_id refusals: shorts/versions up to 6 (4 with base product)",
+        "round trip: short <= 6, version <= 5 (thorough 10/8) for every release type, with a base product for a selection (thorough: all) of type pairs",
+        "call histories: the layered and the plain id of one release (short <= 3 letters, version <= 3 over digits and dots) parsed one after the other in both orders, the first result edited by the caller",
     ],
 }
